@@ -18,7 +18,7 @@ def OrdOK (ord : Ord) : Prop := ∀ l, (ord l).Perm l
 structure Clean (c : Circuit) : Prop where
   nodup : c.nodeNames.Nodup
   typed : ∀ p ∈ c.nodes, ∃ t, p.2.ty = some t ∧ t ∈ Expected.supported_types ∧ t ≠ "x"
-  single : ∀ n t, c.ty? n = some t → t ∈ ["buf", "not", "bb_input"] → (c.fanin n).length = 1
+  single : ∀ n t, c.ty? n = some t → t ∈ ["buf", "not", "bb_input"] → (c.fanin n).length ≤ 1
   multi : ∀ n t, c.ty? n = some t → t ∈ ["and", "nand", "or", "nor", "xor", "xnor"] → 1 ≤ (c.fanin n).length
 
 /-- the unique extension of a node valuation to the encoder's auxiliary variables -/
@@ -120,12 +120,19 @@ theorem numbering_injective (pool : List Var) (a b : Var) (ha : a ∈ pool) (hb 
   unfold numbering at h
   exact Tseitin.idxOf_inj pool a b ha hb (Nat.add_right_cancel h)
 
-/-- in an acyclic clean circuit the values of the free nodes (inputs, blackbox outputs) determine every node -/
+/-- `n` is a free node: an input, a blackbox output, or an undriven buf / not / bb_input
+    (for these `gateFn` is `none`, and the encoder emits only the tautology `[n, ¬n]`) -/
+def Free (c : Circuit) (n : Name) : Prop :=
+  c.ty? n = some "input" ∨ c.ty? n = some "bb_output" ∨
+    (∃ t, c.ty? n = some t ∧ t ∈ ["buf", "not", "bb_input"] ∧ c.fanin n = [])
+
+/-- in an acyclic clean circuit the values of the free nodes (inputs, blackbox outputs, undriven
+    buf/not/bb_input) determine every node -/
 theorem acyclic_unique (c : Circuit) (hc : Clean c)
     (closed : ∀ e ∈ c.edges, c.has e.1 = true ∧ c.has e.2 = true)
     (hacyc : ∃ rank : Name → Nat, ∀ e ∈ c.edges, rank e.1 < rank e.2)
     (v w : Val) (hv : Consistent c v) (hw : Consistent c w)
-    (hfree : ∀ n, (c.ty? n = some "input" ∨ c.ty? n = some "bb_output") → v n = w n) :
+    (hfree : ∀ n, Free c n → v n = w n) :
     ∀ n, c.has n = true → v n = w n := by
   obtain ⟨rank, hrank⟩ := hacyc
   exact Tseitin.acyclic_unique' c hc.nodup hc.typed hc.single closed rank hrank v w hv hw hfree
@@ -135,7 +142,7 @@ theorem acyclic_exists (c : Circuit) (hc : Clean c) (order : List Name) (free : 
     (hperm : order.Perm c.nodeNames)
     (htopo : ∀ i j (hi : i < order.length) (hj : j < order.length), (order[i], order[j]) ∈ c.edges → i < j) :
     Consistent c (eval c order free) ∧
-    ∀ n, (c.ty? n = some "input" ∨ c.ty? n = some "bb_output") → eval c order free n = free n := by
+    ∀ n, Free c n → eval c order free n = free n := by
   exact Tseitin.acyclic_exists' c hc.nodup order free hperm htopo
 
 /-! non-vacuity: a clean circuit with a 3-input xnor (parity chain + inverter) and a 1-input nand -/
@@ -151,6 +158,26 @@ example : Clean ex := by
     obtain ⟨p, hp, rfl, hpt⟩ := Tseitin.mem_of_ty ex n t ht
     simp only [ex, List.mem_cons, List.not_mem_nil, or_false] at hp
     rcases hp with rfl | rfl | rfl | rfl | rfl <;> cases hpt <;>
+      first | exact absurd hm (by decide) | decide
+
+/-! non-vacuity for undriven nodes: an undriven `buf` (a free net, as in a miter with untied startpoints)
+    feeding an `and`; the buf contributes only the tautology `[u, ¬u]` -/
+def ex2 : Circuit :=
+  { nodes := [("a", { ty := some "input", out := some false }), ("u", { ty := some "buf", out := some false }),
+              ("g", { ty := some "and", out := some true })],
+    edges := [("a", "g"), ("u", "g")] }
+example : (cnf ex2 id).toOption = some
+    [[⟨true, .node "a"⟩, ⟨false, .node "a"⟩],
+     [⟨true, .node "u"⟩, ⟨false, .node "u"⟩],
+     [⟨false, .node "g"⟩, ⟨true, .node "a"⟩], [⟨false, .node "g"⟩, ⟨true, .node "u"⟩],
+     [⟨true, .node "g"⟩, ⟨false, .node "a"⟩, ⟨false, .node "u"⟩]] := by decide
+example : Free ex2 "u" := Or.inr (Or.inr ⟨"buf", by decide, by decide, by decide⟩)
+example : Clean ex2 := by
+  refine ⟨by decide, by decide, ?_, ?_⟩ <;>
+  · intro n t ht hm
+    obtain ⟨p, hp, rfl, hpt⟩ := Tseitin.mem_of_ty ex2 n t ht
+    simp only [ex2, List.mem_cons, List.not_mem_nil, or_false] at hp
+    rcases hp with rfl | rfl | rfl <;> cases hpt <;>
       first | exact absurd hm (by decide) | decide
 
 end CG.C01
